@@ -306,6 +306,20 @@ static void c14_parse_harness(vin_t in) {
     int outcome = (in.state == STATE_BOUNDARY) ? ref_candidate(in.bnd, BL, in.bmp, in.chunk, N) : -1;
     g14_carried = (outcome == REF_CAND_MATCH);
 
+#ifdef C14_FINALIZE
+    /* ---------- end of body: htp_mpartp_finalize from the same symbolic WF state, no part object yet (current_part == NULL) ---------- */
+    g14_carried = 0;
+    htp_status_t frc = htp_mpartp_finalize(p);
+    VASSERT(frc == HTP_OK, "finalize without a part object returns HTP_OK");
+    VASSERT(r14_pc == sum0 && r14_pi == in.np, "finalize: the stored pieces of an open candidate are handed out in full, also when they are all there is of the last part");
+    VASSERT(r14_crn == (size_t) in.cr, "finalize: a set-aside CR is released as data");
+    VASSERT(c14_nslots == 0, "finalize: nothing stays stored");
+    VASSERT(r14_hi == 0 && r14_nb == 0 && r14_app == 0, "finalize hands out no chunk byte, reports no delimiter, stores nothing");
+#ifdef VNATIVE
+    g14_app_n = 0; c14_bb_clear(&c14_bb); free(chunk); free(bnd);
+#endif
+    return;
+#endif
     /* ---------- one call ---------- */
     htp_status_t rc = htp_mpartp_parse(p, chunk, N);
 
